@@ -1,4 +1,102 @@
-/-! Line-protocol driver for property C13 (stub until the model exists). -/
+import CprocVerif.Model.Scan
+import CprocVerif.Spec.Lex
+
+/-! Line-protocol driver for property C13 (model of `scan.c` + `pp.c:keyword`, and the 6.4 spec).
+
+One output line per input line (same protocol as `harness/scan_h.c`):
+* `raw <hex>`  → `<tok> <tok> … [!<line>.<col>:<errkind>]`
+                 `<tok>` = `<kind number>:<lit hex | ->:=:<line>.<col>:<space 0|1>`
+* `pp <hex>`   → the same after dropping `TNEWLINE` tokens and converting keywords (what `next()`
+                 delivers for a text without directives and macros)
+* `spec <hex>` → the reference lexer of `Spec/Lex.lean` on the phase-2 text:
+                 `<class>:<lexeme hex>:<space>` per preprocessing token, `!<reason>` when the text
+                 has no tokenisation (unterminated literal or comment)
+* `kw <hex>`   → `Spec.keywordOf`: kind number or `-`
+* anything else → `bad-op`
+-/
+
+open CprocVerif CprocVerif.Scan CprocVerif.Gen.TokenKinds
+
+def hexDigit (c : Char) : Option Nat :=
+  if '0' ≤ c ∧ c ≤ '9' then some (c.toNat - '0'.toNat)
+  else if 'a' ≤ c ∧ c ≤ 'f' then some (c.toNat - 'a'.toNat + 10)
+  else none
+
+def parseHex (s : String) : Option (List UInt8) :=
+  let rec go : List Char → List UInt8 → Option (List UInt8)
+    | [], acc => some acc.reverse
+    | [_], _ => none
+    | a :: b :: r, acc =>
+      match hexDigit a, hexDigit b with
+      | some x, some y => go r ((x * 16 + y).toUInt8 :: acc)
+      | _, _ => none
+  go s.toList []
+
+def hexOf (bs : List UInt8) : String :=
+  let d (n : Nat) : Char := if n < 10 then Char.ofNat (48 + n) else Char.ofNat (87 + n)
+  String.ofList (bs.foldr (fun b acc => d (b.toNat / 16) :: d (b.toNat % 16) :: acc) [])
+
+def errName : ErrKind → String
+  | .hexEscape => "hexEscape" | .escape => "escape" | .nlChar => "nlChar" | .nulChar => "nulChar"
+  | .eofChar => "eofChar" | .nlStr => "nlStr" | .nulStr => "nulStr" | .eofStr => "eofStr"
+  | .eofComment => "eofComment" | .fuel => "fuel"
+
+def showTok (t : Token) : String :=
+  let lit := match t.lit with
+    | none => "-"
+    | some l => if t.kind = Kind.TOTHER then hexOf (l.take 1) else hexOf l
+  s!"{t.kind.toNat}:{lit}:=:{t.loc.line}.{t.loc.col}:{if t.space then 1 else 0}"
+
+def showRun (r : List Token × Option Err) : String :=
+  let toks := " ".intercalate (r.1.map showTok)
+  match r.2 with
+  | none => toks
+  | some e => toks ++ s!" !{e.loc.line}.{e.loc.col}:{errName e.kind}"
+
+def showSpec (r : List Spec.Lex.PPToken × Option String) : String :=
+  let toks := " ".intercalate (r.1.map fun t =>
+    s!"{t.cls.name}:{hexOf t.lexeme}:{if t.space then 1 else 0}")
+  match r.2 with
+  | none => toks
+  | some e => toks ++ " !" ++ e
+
+def step (line : String) : String :=
+  match line.trimAscii.toString.splitOn " " with
+  | ["raw"] => showRun (tokensP [])
+  | ["pp"] => showRun (tokensP [])
+  | ["spec"] => showSpec (Spec.Lex.lex [])
+  | ["raw", h] =>
+    match parseHex h with
+    | some bs => showRun (tokensP bs)
+    | none => "bad-op"
+  | ["pp", h] =>
+    match parseHex h with
+    | some bs =>
+      let r := tokensP bs
+      showRun ((r.1.filter (·.kind ≠ Kind.TNEWLINE)).map Token.toKeyword, r.2)
+    | none => "bad-op"
+  | ["spec", h] =>
+    match parseHex h with
+    | some bs => showSpec (Spec.Lex.lex (unsplice bs))
+    | none => "bad-op"
+  | ["kw", h] =>
+    match parseHex h with
+    | some bs => match Spec.Lex.keywordOf bs with
+      | some k => toString k.toNat
+      | none => "-"
+    | none => "bad-op"
+  | _ => "bad-op"
+
+partial def loop (stdin stdout : IO.FS.Stream) : IO Unit := do
+  let line ← stdin.getLine
+  if line.isEmpty then
+    return ()
+  stdout.putStrLn (step line)
+  loop stdin stdout
+
 def main (_args : List String) : IO UInt32 := do
-  IO.eprintln "drv_c13: no model yet"
-  return 2
+  let stdin ← IO.getStdin
+  let stdout ← IO.getStdout
+  loop stdin stdout
+  stdout.flush
+  return 0
